@@ -1,303 +1,223 @@
-"""C07 - CursorAwareWindow keeps history intact and accounts for every scroll (DESIGN.md section 3, C07: P*, S1..S5)."""
-import ast
+"""C07 - CursorAwareWindow keeps history intact and accounts for every scroll (DESIGN.md section 3, C07)."""
+import itertools
 
-from ..cfg import enumerate_paths, lexical_guard, single_defs
+from .. import termmodel
+from ..fold import new_interp
 from ..report import AnalysisError
-from ..srcmodel import is_self_attr, unparse
-from . import render
+from ..winmodel import Rig
+from .c02 import Pool, expected_cells, rows_of, show
 
 EXPLANATION = (
-    "Path rules over terminal-effect tokens of CursorAwareWindow.render_to_terminal, scroll_down, __enter__, __exit__.  "
-    "P1-P5, P7, P8 as for C02 on the non-scrolling part (rows zip(rows_for_use[:shared], array[:shared]) with "
-    "rows_for_use = range(top_usable_row, height), shared = min of both lengths; the rest of the rows are blanked, the rest "
-    "of the lines are scrolled for).  S1 scroll accounting: every path through the surplus-line loop has exactly one scroll, "
-    "exactly one of {self.top_usable_row -= 1, offscreen_scrolls += 1} with the decrement guarded by a test of that same "
-    "attribute being > 0, one re-keying of the record by -1, then move(height-1, 0), text, record[height-1] = line; the "
-    "function returns offscreen_scrolls (initialised to 0) on every path; top_usable_row is written only by __enter__, the "
-    "cursor-diff code and this loop.  S2 every MOVE addresses a row of rows_for_use, height-1 or the recorded cursor row - "
-    "never an absolute row above the window.  S3 the recorded cursor row is the affine form cursor_pos[0] - "
-    "offscreen_scrolls + self.top_usable_row (clamped at 0 only), the column is cursor_pos[1], and the final MOVE goes "
-    "exactly there.  S4 __exit__ emits only move_down (under keep_last_line), move_x(0), clear_eos, clear_eol - nothing "
-    "that addresses or clears rows above the cursor.  S5 scroll_down is move_down inside `with self.t.location(...)` at "
-    "the bottom row."
+    "CursorAwareWindow (its own __init__, __enter__ with the cursor position query, render_to_terminal, scroll_down, "
+    "__exit__ and everything they call) is abstractly interpreted with blessed.Terminal, the streams and Cbreak replaced by "
+    "stubs; every string the window writes is fed to the reference terminal model (sa/termmodel.py), which also answers "
+    "the cursor position query.  For a catalogue of terminal sizes, initial screens (0 .. more than a screenful of "
+    "pre-existing lines; the cursor on the line after the output or moved up onto a row that already holds output) and "
+    "histories of renders (for every ordered pair of arrays A, B of the pool: A, B, A; arrays of height 0 .. beyond the "
+    "screen, rows shared between renders, rows differing only in formatting, empty rows, plain str rows, full-width rows, arrays that continue a "
+    "scrolled one; keep_last_line / hide_cursor on and off) followed by __exit__, the model is compared with an "
+    "independent statement of the property in absolute line numbers (scrollback + screen): W = window top, S = lines "
+    "scrolled so far; a render of n rows scrolls d = max(0, W+n-(S+height)) lines, returns max(0, d-(W-S)), leaves every "
+    "line above W exactly as it was, shows array row i on line W+i (also the rows that moved into the scrollback), leaves "
+    "every line below blank and unformatted and the cursor on line W+cursor_pos[0], column cursor_pos[1]; afterwards "
+    "W = max(W, S+d).  Leaving the context leaves every line above W as it was."
 )
-NOT_DECIDED = "terminal scrolling semantics, scrollback content, correctness of top_usable_row as a number across SIGWINCH."
+NOT_DECIDED = ("histories longer than three renders and terminals larger than the catalogue's; rows wider than the terminal (the "
+               "class writes them unbounded by design); terminal resizes between renders (C18 covers the cursor-diff accounting); "
+               "what a real terminal does with the control strings (the reference model is an assumption).")
+
+GROUPS = {
+    "S0-enter-finds-the-window-top": "entering the context on each initial screen",
+    "S1-scrolls-exactly-what-does-not-fit": "lines scrolled by each render of the history catalogue",
+    "S1-returns-rows-pushed-off-the-top": "value returned by each render of the history catalogue",
+    "S2-history-above-the-window-untouched": "lines above the window after each render of the history catalogue",
+    "S2-array-shown-from-window-top-rest-blank": "lines from the window top down after each render of the history catalogue",
+    "S3-cursor-on-designated-cell": "cursor after each render of the history catalogue",
+    "S4-exit-leaves-history-intact": "lines above the window after leaving the context",
+}
+
+
+def initial_screens(h, w, tier):
+    """(description, builder(screen))"""
+    out = []
+    ps = [0, 1, h - 1, h, h + 2] if tier == "thorough" else [0, 1, h, h + 2]
+    for p in sorted(set(x for x in ps if x >= 0)):
+        def mk(scr, p=p):
+            for i in range(p):
+                scr.feed(("old%d" % i)[:w] + "\r\n")
+        out.append(("%d old line(s), cursor on the line after them" % p, mk))
+    for p, k in ((h, 0), (h - 1, 1), (h + 2, h - 2)):
+        if 0 <= k < h and p > k:
+            def mk2(scr, p=p, k=k):
+                for i in range(p):
+                    scr.feed(("old%d" % i)[:w] + ("\r\n" if i < p - 1 else ""))
+                scr.feed(termmodel.move(k, min(1, w - 1)))
+            out.append(("%d old line(s), cursor moved up to row %d" % (p, k), mk2))
+    return out
+
+
+def array_pool(pool, h, w, tier):
+    fs = pool.fs
+
+    def rows(start, n, variant):
+        out = []
+        for i in range(start, start + n):
+            if variant == "full":
+                out.append(fs((str(i % 10) * w)))
+            elif variant == "red-odd" and i % 2:
+                out.append(fs(("r%d" % i)[:w], "red"))
+            elif variant == "gaps":
+                out.append(fs("") if i % 2 == 0 else ("s%d" % i)[:w])       # empty FmtStr rows and plain str rows
+            elif variant == "bg":
+                out.append(fs(("r%d" % i)[:max(1, w - 1)], bg="blue", bold=True))
+            else:
+                out.append(fs(("r%d" % i)[:w]))
+        return out
+    ns = [0, 1, h - 1, h, h + 1, h + 3] if tier == "quick" else [0, 1, 2, h - 1, h, h + 1, h + 3]
+    specs = []
+    for n in sorted(set(x for x in ns if x >= 0)):
+        specs.append((0, n, "plain"))
+        if n:
+            specs.append((0, n, "red-odd"))
+            specs.append((0, n, "gaps"))
+        if n >= h:
+            specs.append((1, n, "plain"))
+            specs.append((0, n, "full"))
+        if tier == "thorough" and n:
+            specs.append((0, n, "bg"))
+            specs.append((2, n, "red-odd"))
+    return [("%d row(s) %s from r%d" % (n, v, st), (lambda st=st, n=n, v=v: rows(st, n, v))) for st, n, v in specs]
+
+
+def run_history(it, h, w, init, steps, keep_last_line, hide_cursor):
+    scr = termmodel.Screen(h, w)
+    init[1](scr)
+    rig = Rig(it, "CursorAwareWindow", h, w, screen=scr, init_kwargs={"keep_last_line": keep_last_line, "hide_cursor": hide_cursor})
+    trail = ["%dx%d terminal, %s%s%s" % (h, w, init[0], ", keep_last_line" if keep_last_line else "", "" if hide_cursor else ", hide_cursor=False")]
+    W = len(scr.scrollback) + scr.r
+    before_all = [list(r) for r in scr.absolute()]
+    r = rig.call("__enter__")
+    if r[0] != "ok":
+        return ("S0-enter-finds-the-window-top", "; ".join(trail), "__enter__ raised %s" % (r[1],))
+    if [list(x) for x in scr.absolute()] != before_all or len(scr.scrollback) + scr.r != W:
+        return ("S0-enter-finds-the-window-top", "; ".join(trail), "entering the context changed the screen or moved the cursor")
+    for name, thunk, curkind in steps:
+        array = thunk()
+        rows = rows_of(array)
+        n = len(rows)
+        S = len(scr.scrollback)
+        d = max(0, W + n - (S + h))
+        S2 = S + d
+        want_ret = max(0, d - (W - S))
+        first_visible = max(0, S2 - W)
+        cr = (n - 1 if curkind == 0 else first_visible) if n else 0
+        cc = [0, w - 1, w // 2][curkind % 3] if n else 0
+        cc = min(cc, max(0, len(expected_cells(rows[cr])) if n else 0))
+        cc = min(cc, w - 1)
+        above = [list(x) for x in scr.absolute()[:W]]
+        scr.mark()
+        r = rig.call("render_to_terminal", array, (cr, cc))
+        trail.append("render %s cursor_pos=%s" % (name, (cr, cc)))
+        hist = "; ".join(trail)
+        if r[0] != "ok":
+            return ("S2-array-shown-from-window-top-rest-blank", hist, "the render raised %s" % (r[1],))
+        ab = scr.absolute()
+        if scr.scrolls != d:
+            return ("S1-scrolls-exactly-what-does-not-fit", hist, "the screen scrolled %d line(s); %d row(s) of the array do not fit below the window top"
+                    % (scr.scrolls, d))
+        if [list(x) for x in ab[:W]] != above:
+            k = [i for i in range(W) if list(ab[i]) != above[i]][0]
+            return ("S2-history-above-the-window-untouched", hist, "line %d above the window (%r) now reads %r"
+                    % (k, show([above[k]])[0], show([ab[k]])[0]))
+        want = []
+        for i in range(n):
+            line = expected_cells(rows[i])[:w]
+            want.append(line + [termmodel.BLANK] * (w - len(line)))
+        while W + len(want) < len(ab):
+            want.append([termmodel.BLANK] * w)
+        got = [list(x) for x in ab[W:]]
+        if got != want:
+            return ("S2-array-shown-from-window-top-rest-blank", hist,
+                    "from the window top (line %d; %d line(s) are in the scrollback) the terminal shows %s, expected %s ('^' marks formatted cells)"
+                    % (W, S2, show(got), show(want)))
+        if r[1] != want_ret:
+            return ("S1-returns-rows-pushed-off-the-top", hist, "returned %r; %d array row(s) were pushed off the top of the screen" % (r[1], want_ret))
+        W = max(W, S2)
+        # the cell cursor_pos designates: line (window top before this render) + cursor_pos[0]
+        target_abs = len(above) + cr
+        if target_abs >= S2 and (len(scr.scrollback) + scr.r, scr.c) != (target_abs, cc):
+            return ("S3-cursor-on-designated-cell", hist, "the cursor is on screen cell %s, cursor_pos designates %s"
+                    % ((scr.r, scr.c), (target_abs - S2, cc)))
+        if scr.pending:
+            return ("S3-cursor-on-designated-cell", hist, "the cursor is left with a deferred wrap pending")
+    above = [list(x) for x in scr.absolute()[:W]]
+    r = rig.call("__exit__", None, None, None)
+    hist = "; ".join(trail) + "; __exit__"
+    if r[0] != "ok":
+        return ("S4-exit-leaves-history-intact", hist, "__exit__ raised %s" % (r[1],))
+    if [list(x) for x in scr.absolute()[:W]] != above:
+        return ("S4-exit-leaves-history-intact", hist, "leaving the context altered a line above the window")
+    if not scr.visible:
+        return ("S4-exit-leaves-history-intact", hist, "leaving the context left the cursor hidden")
+    return None
+
+
+def rule_semantic(src, rep, counts):
+    from ..par import pmap
+    it = new_interp(src)
+    pool = Pool(it)
+    f = src.func("window", "CursorAwareWindow.render_to_terminal")
+    sizes = [(3, 4), (2, 3)] if rep.tier == "quick" else [(3, 4), (2, 3), (4, 5), (1, 2)]
+    jobs = []
+    for (h, w) in sizes:
+        arrs = array_pool(pool, h, w, rep.tier)
+        inits = initial_screens(h, w, rep.tier)
+        for i, j in itertools.product(range(len(arrs)), repeat=2):
+            for k in range(len(inits)):
+                if rep.tier == "quick" and (i + 2 * j + k) % 3:
+                    continue
+                jobs.append((h, w, i, j, k, (i + j + k) % 2 == 0, (i + k) % 3 != 0))
+
+    def one(job):
+        h, w, i, j, k, keep, hide = job
+        arrs = array_pool(pool, h, w, rep.tier)
+        init = initial_screens(h, w, rep.tier)[k]
+        steps = [(arrs[i][0], arrs[i][1], i % 2), (arrs[j][0], arrs[j][1], (j + 1) % 2), (arrs[i][0], arrs[i][1], 0)]
+        try:
+            return run_history(it, h, w, init, steps, keep, hide)
+        except AnalysisError as e:
+            return ("error", str(e), "")
+    results = pmap(one, jobs, min_chunk=8)
+    bad = {}
+    n = 0
+    for job, res in zip(jobs, results):
+        n += 1
+        rep.case(True, {"terminal": job[:2], "arrays": job[2:4], "initial_screen": job[4]} if n % 397 == 1 else None)
+        if res is None:
+            continue
+        if res[0] == "error":
+            raise AnalysisError(res[1])
+        bad.setdefault(res[0], []).append(res[1:])
+    for rule, group in GROUPS.items():
+        items = bad.get(rule, [])
+        if items:
+            items.sort(key=lambda x: len(x[0]))
+            hist, why = items[0]
+            rep.ob(rule, f.where(), f.scope, group, False, "%s: %s (%d of %d histories fail this rule)" % (hist, why, len(items), n),
+                   witness={"history": hist, "failing_histories": len(items)})
+        else:
+            rep.ob(rule, f.where(), f.scope, group, True)
+    counts["histories"] = n
 
 
 def check(src, rep):
     rep.explanation = EXPLANATION
     rep.not_decided = NOT_DECIDED
-    rep.assumptions = ["blessed capabilities do what their names say; a line feed on the bottom row scrolls the screen by one",
-                       "t.location() saves and restores the cursor"]
-    rep.trusted_base = ["CPython ast", "sa/cfg.py", "sa/rules/render.py"]
+    rep.assumptions = ["the reference terminal model (sa/termmodel.py) describes the terminal: a line feed on the bottom row scrolls by one, "
+                       "save/restore cursor, the cursor position report",
+                       "blessed returns the xterm capability strings for the capabilities the window names"]
+    rep.trusted_base = ["CPython ast", "sa/consteval.py", "sa/absint.py", "sa/objinterp.py", "sa/termmodel.py", "sa/winmodel.py", "sa/sgr.py"]
     counts = {}
-    rep.guard(rule_render, src, rep, counts)
-    rep.guard(rule_exit, src, rep, counts)
-    rep.guard(rule_scroll_down, src, rep, counts)
-    rep.guard(rule_enter, src, rep, counts)
+    rep.guard(rule_semantic, src, rep, counts)
     rep.extracted["counts"] = counts
-    rep.floor("row loops", counts.get("loops", 0), 3)
-    rep.floor("loop-body paths", counts.get("paths", 0), 6)
-
-
-def _linear(e, defs):
-    """Affine form {term_text: coefficient} of an expression built from +, -, names, attributes, subscripts, constants;
-    None when it is not affine in its leaves (after expanding single-definition locals)."""
-    if isinstance(e, ast.Name) and e.id in defs:
-        return _linear(defs[e.id], defs)
-    if isinstance(e, ast.BinOp) and isinstance(e.op, (ast.Add, ast.Sub)):
-        a, b = _linear(e.left, defs), _linear(e.right, defs)
-        if a is None or b is None:
-            return None
-        out = dict(a)
-        for k, v in b.items():
-            out[k] = out.get(k, 0) + (v if isinstance(e.op, ast.Add) else -v)
-        return {k: v for k, v in out.items() if v != 0}
-    if isinstance(e, ast.UnaryOp) and isinstance(e.op, ast.USub):
-        a = _linear(e.operand, defs)
-        return None if a is None else {k: -v for k, v in a.items()}
-    if isinstance(e, ast.Constant) and isinstance(e.value, int):
-        return {"1": e.value} if e.value else {}
-    if isinstance(e, (ast.Name, ast.Attribute, ast.Subscript)):
-        return {unparse(e): 1}
-    if isinstance(e, ast.Call) and isinstance(e.func, ast.Name) and e.func.id == "len" and len(e.args) == 1 and not e.keywords:
-        return {unparse(e): 1}
-    return None
-
-
-def rule_render(src, rep, counts):
-    f = src.func("window", "CursorAwareWindow.render_to_terminal")
-    h, w = render.size_locals(f)
-    tf = render.text_funcs(src, f)
-    loops = [n for n in f.node.body if isinstance(n, ast.For)]
-    if len(loops) != 3:
-        raise AnalysisError("CursorAwareWindow.render_to_terminal: expected three top-level loops, found %d" % len(loops))
-    content, blank, scroll = loops
-    counts["loops"] = 3
-    defs = single_defs(f.node)
-    arr = f.params()[1]
-    cp = f.params()[2]
-    recs = [n for n in ast.walk(content) if isinstance(n, ast.Assign) and isinstance(n.targets[0], ast.Subscript)]
-    if not recs:
-        raise AnalysisError("content loop records nothing")
-    current = unparse(recs[0].targets[0].value)
-    # ---- the split of rows and lines
-    it = content.iter
-    if not (isinstance(it, ast.Call) and unparse(it.func) == "zip" and len(it.args) == 2 and isinstance(content.target, ast.Tuple)):
-        raise AnalysisError("content loop is not `for row, line in zip(rows, lines)`")
-    rowvar, linevar = [unparse(x) for x in content.target.elts]
-    rows_e, lines_e = it.args
-
-    def sl(e):
-        if isinstance(e, ast.Subscript) and isinstance(e.slice, ast.Slice) and e.slice.step is None:
-            return unparse(e.value), unparse(e.slice.lower) if e.slice.lower else None, unparse(e.slice.upper) if e.slice.upper else None
-        return None
-    r_sl, l_sl = sl(rows_e), sl(lines_e)
-    ok = r_sl is not None and l_sl is not None and r_sl[1] is None and l_sl[1] is None and r_sl[2] == l_sl[2] and l_sl[0] == arr
-    rows_name = r_sl[0] if r_sl else None
-    shared = r_sl[2] if r_sl else None
-    rf = defs.get(rows_name)
-    ok_rows = rf is not None and unparse(rf).replace(" ", "") in ("list(range(self.top_usable_row,%s))" % h, "range(self.top_usable_row,%s)" % h)
-    sd = defs.get(shared) if shared else None
-    ok_shared = sd is not None and isinstance(sd, ast.Call) and unparse(sd.func) == "min" and \
-        {unparse(a) for a in sd.args} == {"len(%s)" % arr, "len(%s)" % rows_name}
-    rep.ob("S2-window-rows-from-top-usable-row", f.where(content), f.scope,
-           "%s = %s; %s = %s; zip(%s, %s)" % (rows_name, unparse(rf) if rf is not None else "?", shared,
-                                               unparse(sd) if sd is not None else "?", unparse(rows_e), unparse(lines_e)),
-           ok and ok_rows and ok_shared,
-           "the rows the window may draw on are range(top_usable_row, height); the first min(len(array), len(rows)) lines go "
-           "onto the first rows in order: anything else draws above the window's first row or misplaces lines")
-    nd, ns = render.check_content_loop(rep, f, content, rowvar, linevar, w, current, tf, "")
-    # ---- blank loop over the rest of the rows
-    bi = defs.get(unparse(blank.iter)) if isinstance(blank.iter, ast.Name) else blank.iter
-    ok = bi is not None and sl(bi) == (rows_name, shared, None) and isinstance(blank.target, ast.Name)
-    rep.ob("P4-blank-range", f.where(blank), f.scope, "for %s in %s = %s" % (unparse(blank.target), unparse(blank.iter), unparse(bi) if bi is not None else "?"),
-           ok, "the rows to blank are the window rows not covered by the array: %s[%s:]" % (rows_name, shared))
-    render.check_blank_loop(rep, f, blank, unparse(blank.target), current, tf, "")
-    # ---- scroll loop
-    si = defs.get(unparse(scroll.iter)) if isinstance(scroll.iter, ast.Name) else scroll.iter
-    ok = si is not None and sl(si) == (arr, shared, None) and isinstance(scroll.target, ast.Name)
-    rep.ob("S1-surplus-lines", f.where(scroll), f.scope, "for %s in %s = %s" % (unparse(scroll.target), unparse(scroll.iter), unparse(si) if si is not None else "?"),
-           ok, "the lines to scroll for are exactly the array lines that did not fit: %s[%s:]" % (arr, shared))
-    sline = unparse(scroll.target)
-    paths = [p for p in enumerate_paths(scroll.body) if p.feasible()]
-    counts["paths"] = len(paths) + len(enumerate_paths(content.body)) + len(enumerate_paths(blank.body))
-    rets = [n for n in f.own_nodes() if isinstance(n, ast.Return)]
-    if len(rets) != 1 or not isinstance(rets[0].value, ast.Name):
-        rep.ob("S1-returns-offscreen-count", f.where(), f.scope, "return statements: %s" % [unparse(r) for r in rets], False,
-               "render_to_terminal must return the number of lines scrolled off the top on every path")
-        off = None
-    else:
-        off = rets[0].value.id
-    for p in paths:
-        toks = render.path_tokens(p, tf)
-        desc = render._show(toks)
-        where = f.where(scroll)
-        n_scroll = sum(1 for t in toks if t[0] == "SCROLL")
-        stm = [t[1] for t in toks if t[0] == "STMT"]
-        dec = [s for s in stm if isinstance(s, ast.AugAssign) and unparse(s.target) == "self.top_usable_row"]
-        inc = [s for s in stm if isinstance(s, ast.AugAssign) and isinstance(s.target, ast.Name) and s.target.id == off]
-        dec_ok = len(dec) == 1 and isinstance(dec[0].op, ast.Sub) and isinstance(dec[0].value, ast.Constant) and dec[0].value.value == 1
-        inc_ok = len(inc) == 1 and isinstance(inc[0].op, ast.Add) and isinstance(inc[0].value, ast.Constant) and inc[0].value.value == 1
-        exactly_one = (dec_ok and not inc) or (inc_ok and not dec)
-        rep.ob("S1-one-scroll-one-account", where, f.scope, desc, n_scroll == 1 and exactly_one,
-               "each surplus line scrolls the screen once and must be accounted for exactly once: either the window's top row "
-               "moves up (self.top_usable_row -= 1) or a line left the screen (%s += 1); this path has %d scroll(s), %d/%d" %
-               (off, n_scroll, len(dec), len(inc)))
-        # the guard of the decrement tests the same location
-        conds = [(t[1], t[2]) for t in toks if t[0] == "COND"]
-        if dec_ok:
-            g = [(unparse(c), v) for c, v in conds]
-            ok = ("self.top_usable_row > 0", True) in g or ("0 < self.top_usable_row", True) in g or \
-                ("self.top_usable_row <= 0", False) in g or ("self.top_usable_row >= 1", True) in g
-            rep.ob("S1-top-row-decrement-guarded-by-itself", where, f.scope, desc, ok,
-                   "self.top_usable_row may only be decremented under a test that this same attribute is > 0 (tests here: %s); "
-                   "a test of a stale copy lets it go negative and miscounts the lines pushed off screen" % g)
-        if inc_ok and not dec:
-            g = [(unparse(c), v) for c, v in conds]
-            ok = ("self.top_usable_row > 0", False) in g or ("0 < self.top_usable_row", False) in g or \
-                ("self.top_usable_row <= 0", True) in g or ("self.top_usable_row >= 1", False) in g
-            rep.ob("S1-offscreen-counted-only-at-top", where, f.scope, desc, ok,
-                   "a line counts as pushed off screen exactly when the window already starts at row 0 (tests here: %s)" % g)
-        # re-key, then draw on the bottom row
-        rekey = [s for s in stm if isinstance(s, ast.Assign) and unparse(s.targets[0]) == current and isinstance(s.value, ast.DictComp)]
-        rk_ok = False
-        if len(rekey) == 1:
-            dc = rekey[0].value
-            g0 = dc.generators[0]
-            rk_ok = len(dc.generators) == 1 and not g0.ifs and unparse(g0.iter) == "%s.items()" % current and \
-                isinstance(g0.target, ast.Tuple) and len(g0.target.elts) == 2 and \
-                unparse(dc.key) == "%s - 1" % unparse(g0.target.elts[0]) and unparse(dc.value) == unparse(g0.target.elts[1])
-        rep.ob("S1-record-rekeyed-by-scroll", where, f.scope, desc, rk_ok,
-               "after a scroll every recorded row moved up by one: the record must be re-keyed {k - 1: v}, no entry dropped")
-        term = [t for t in toks if t[0] in ("MOVE", "TEXT", "CLEAR_EOL", "CLEAR_BOL", "CLEAR_EOS", "CLEAR_ALL", "OTHER", "MOVE_X", "HOME")]
-        recs2 = [t for t in toks if t[0] == "REC" and t[1] == current]
-        ok = [t[0] for t in term] == ["MOVE", "TEXT"] and term[0][1:] == ("%s - 1" % h, "0") and unparse(term[1][1]) == sline and \
-            len(recs2) == 1 and recs2[0][2] == "%s - 1" % h and recs2[0][3] == sline
-        # order: scroll before move/text; rekey before record
-        order = [t[0] if t[0] != "STMT" else ("REKEY" if t[1] in rekey else "S") for t in toks if t[0] in ("SCROLL", "MOVE", "TEXT", "REC", "STMT")]
-        seq = [x for x in order if x in ("SCROLL", "REKEY", "MOVE", "TEXT", "REC")]
-        ok = ok and seq == ["SCROLL", "REKEY", "MOVE", "TEXT", "REC"]
-        rep.ob("S1-surplus-line-drawn-on-bottom-row", where, f.scope, desc, ok,
-               "after scrolling, the surplus line is drawn by move(%s - 1, 0) + text and recorded under %s - 1 (sequence %s)" % (h, h, seq))
-    inits = [n for n in f.node.body if isinstance(n, ast.Assign) and off is not None and unparse(n.targets[0]) == off]
-    rep.ob("S1-returns-offscreen-count", f.where(rets[0]) if rets else f.where(), f.scope, "%s = 0 ... return %s" % (off, off),
-           off is not None and len(inits) == 1 and isinstance(inits[0].value, ast.Constant) and inits[0].value.value == 0 and
-           inits[0].lineno < scroll.lineno and rets[0] is f.node.body[-1],
-           "the count of lines pushed off screen must start at 0 before the scroll loop and be returned at the end")
-    # who may write top_usable_row
-    allowed = {"CursorAwareWindow.__enter__", "CursorAwareWindow._get_cursor_vertical_diff_once", "CursorAwareWindow.render_to_terminal"}
-    for g in src.all_funcs():
-        for node in g.own_nodes():
-            tg = node.targets if isinstance(node, ast.Assign) else [node.target] if isinstance(node, (ast.AugAssign, ast.AnnAssign)) else []
-            for t in tg:
-                for a in ast.walk(t):
-                    if isinstance(a, ast.Attribute) and a.attr == "top_usable_row" and isinstance(a.ctx, ast.Store):
-                        ok = g.qualname in allowed and g.module.name == "window"
-                        if g.qualname == "CursorAwareWindow.render_to_terminal":
-                            ok = ok and any(x is node for x in ast.walk(scroll))
-                        rep.ob("S1-who-may-write-top-usable-row", g.where(node), g.scope, unparse(node), ok,
-                               "top_usable_row is written outside __enter__, the cursor-diff code and the scroll loop")
-    render.check_invalidation(src, rep, f, h, w, content, "")
-    render.check_commit(src, rep, f, current, loops, "")
-    # ---- S2: rows addressed
-    for n in f.own_nodes():
-        if isinstance(n, ast.Expr):
-            t = render.token_of(n, tf)
-            if t and t[0] == "MOVE":
-                row = t[1]
-                ok = row in (rowvar, unparse(blank.target), "%s - 1" % h, "self._last_cursor_row")
-                rep.ob("S2-moves-stay-inside-window", f.where(n), f.scope, unparse(n), ok,
-                       "a MOVE addresses row `%s`, which is not a row of the window, the bottom row or the recorded cursor row: "
-                       "content above the window's first row could be overwritten" % row)
-            if t and t[0] in ("OTHER", "CLEAR_EOS", "CLEAR_ALL", "HOME", "MOVE_UP"):
-                rep.ob("S2-no-unmodelled-or-upward-effects", f.where(n), f.scope, unparse(n), False,
-                       "render_to_terminal emits %s, which can touch rows outside the window" % t[0])
-    # ---- S3: cursor
-    rowst = [n for n in f.node.body if isinstance(n, ast.Assign) and unparse(n.targets[0]) == "self._last_cursor_row"]
-    colst = [n for n in f.node.body if isinstance(n, ast.Assign) and unparse(n.targets[0]) == "self._last_cursor_column"]
-    ok = len(rowst) == 1 and len(colst) == 1
-    why = "the cursor row/column are not recorded exactly once"
-    if ok:
-        v = rowst[0].value
-        inner = v
-        clamp = False
-        if isinstance(v, ast.Call) and unparse(v.func) == "max" and len(v.args) == 2 and any(isinstance(a, ast.Constant) and a.value == 0 for a in v.args):
-            inner = [a for a in v.args if not (isinstance(a, ast.Constant) and a.value == 0)][0]
-            clamp = True
-        lin = _linear(inner, {k: d for k, d in defs.items() if k != off})
-        want = {"%s[0]" % cp: 1, off: -1, "self.top_usable_row": 1}
-        ok = lin == want and rowst[0].lineno > scroll.lineno
-        why = "the recorded cursor row is `%s` = %s; the cell cursor_pos designates is on screen row cursor_pos[0] - %s + " \
-              "self.top_usable_row (only a clamp at 0 is allowed around it)" % (unparse(v), lin if lin is not None else "a non-affine expression", off)
-        ok = ok and unparse(colst[0].value) == "%s[1]" % cp
-    rep.ob("S3-cursor-row-is-affine-in-offsets", f.where(rowst[0]) if rowst else f.where(), f.scope,
-           unparse(rowst[0]) if rowst else "<none>", ok, why)
-    toks = [(st, render.token_of(st, tf)) for st in f.node.body]
-    toks = [(st, t) for st, t in toks if t is not None and t[0] not in ("HIDE", "SHOW")]
-    ok = bool(toks) and toks[-1][1] == ("MOVE", "self._last_cursor_row", "self._last_cursor_column") and rowst and \
-        toks[-1][0].lineno > rowst[0].lineno and toks[-1][0].lineno > scroll.lineno
-    rep.ob("S3-cursor-placed-last-at-recorded-cell", f.where(toks[-1][0]) if toks else f.where(), f.scope,
-           unparse(toks[-1][0]) if toks else "<none>", ok,
-           "the last terminal effect must be move(self._last_cursor_row, self._last_cursor_column), after the scrolling")
-
-
-def rule_exit(src, rep, counts):
-    f = src.func("window", "CursorAwareWindow.__exit__")
-    tf = set()
-    allowed = {"MOVE_DOWN", "MOVE_X", "CLEAR_EOS", "CLEAR_EOL"}
-    n = 0
-    for st in f.own_nodes():
-        if not isinstance(st, ast.Expr):
-            continue
-        t = render.token_of(st, tf)
-        if t is None:
-            continue
-        n += 1
-        ok = t[0] in allowed
-        if t[0] == "MOVE_X":
-            ok = t[1:] == ("0",)
-        if t[0] == "MOVE_DOWN":
-            g = lexical_guard(f.module, st, f.node)
-            ok = g == [("self.keep_last_line", True)]
-        rep.ob("S4-exit-clears-only-downward", f.where(st), f.scope, unparse(st), ok,
-               "on leaving, only move_down (under keep_last_line), move_x(0), clear_eos and clear_eol may be emitted; `%s` can "
-               "address or clear rows above the cursor (terminal history)" % render._show([t]))
-    counts["exit_tokens"] = n
-    if n < 3:
-        raise AnalysisError("CursorAwareWindow.__exit__: fewer terminal effects than expected (%d)" % n)
-
-
-def rule_scroll_down(src, rep, counts):
-    f = src.func("window", "BaseWindow.scroll_down")
-    withs = [n for n in f.node.body if isinstance(n, ast.With)]
-    ok = len(withs) == 1 and len(withs[0].items) == 1 and isinstance(withs[0].items[0].context_expr, ast.Call) and \
-        unparse(withs[0].items[0].context_expr.func) == "self.t.location"
-    toks = []
-    if ok:
-        for st in withs[0].body:
-            t = render.token_of(st, set())
-            if t:
-                toks.append(t)
-        call = withs[0].items[0].context_expr
-        kw = {k.arg: k.value for k in call.keywords}
-        y = kw.get("y", call.args[1] if len(call.args) > 1 else None)
-        big = isinstance(y, ast.Constant) and isinstance(y.value, int) and y.value >= 10000
-        ok = toks == [("MOVE_DOWN",)] and big
-    outside = [render.token_of(st, set()) for st in f.node.body if not isinstance(st, ast.With)]
-    outside = [t for t in outside if t]
-    rep.ob("S5-scroll-is-linefeed-at-bottom-with-cursor-restored", f.where(), f.scope,
-           "with self.t.location(x=0, y=<bottom>): write(move_down)", ok and not outside,
-           "scroll_down must save the cursor, go to the bottom row, emit one move_down (line feed) and restore the cursor; found "
-           "%s inside and %s outside the location() block" % (toks, outside))
-
-
-def rule_enter(src, rep, counts):
-    f = src.func("window", "CursorAwareWindow.__enter__")
-    st = [n for n in f.own_nodes() if isinstance(n, ast.Assign) and any(
-        isinstance(a, ast.Attribute) and a.attr == "top_usable_row" and isinstance(a.ctx, ast.Store) for t in n.targets for a in ast.walk(t))]
-    ok = len(st) == 1 and isinstance(st[0].targets[0], ast.Tuple) and unparse(st[0].targets[0].elts[0]) == "self.top_usable_row" and \
-        unparse(st[0].value) == "self.get_cursor_position()"
-    rep.ob("S2-window-starts-at-cursor-row", f.where(st[0]) if st else f.where(), f.scope, unparse(st[0]) if st else "<none>", ok,
-           "on entering, the window's first usable row must be the row the cursor is on (first component of "
-           "get_cursor_position()): everything above it is history")
+    rep.floor("render histories", counts.get("histories", 0), 100)
